@@ -32,7 +32,27 @@ import (
 
 const waitBound = 10 * time.Second
 
+// names: the two endpoint names of the case being run (c.Names; default the
+// first pair).  The two names of a pair are always DIFFERENT names -- also
+// when they differ only in the case of a letter, in a trailing dot or in a
+// trailing slash: they must not kick each other, and each is unregistered
+// under exactly the spelling it was registered under.
 var names = []string{"/a", "/b"}
+
+var namePairs = [][]string{
+	{"/a", "/b"},
+	{"/Tester-7", "/tester-7"},
+	{"/site", "/SITE"},
+	{"/\u00c4rger", "/\u00e4rger"},   // Ä / ä
+	{"/K7", "/\u212a7"},              // K / KELVIN SIGN (folds to k)
+	{"/\u01c5x", "/\u01c6x"},         // ǅ (title case) / ǆ
+	{"/x.", "/x"},
+	{"/y/", "/y"},
+	{"/Mixed.Case/", "/mixed.case"},
+}
+
+// escaped is the name as it goes into a raw URL.
+func escaped(name string) string { return (&url.URL{Path: name}).EscapedPath() }
 
 type Step struct {
 	Op     string `json:"op"` // connect | release | close | sever
@@ -85,6 +105,7 @@ type Case struct {
 	// front stream: rounds of "a front connection's dial is refused by a live endpoint"
 	Front []FrontObs `json:"front,omitempty"`
 	Slow  bool       `json:"slow,omitempty"` // front stream: the last round is the accept-timeout one (10 s)
+	Names []string   `json:"names,omitempty"` // the two endpoint names of this case
 }
 
 // FrontObs is one round of the front stream: a live endpoint answers the dial
@@ -565,7 +586,7 @@ func (w *world) run() {
 		case "badconnect":
 			// a request that cannot be upgraded to a websocket: ServeBackName
 			// returns before mapping anything
-			resp, err := http.Get("http://" + addr + names[st.Name])
+			resp, err := http.Get("http://" + addr + escaped(names[st.Name]))
 			if err == nil {
 				resp.Body.Close()
 			}
@@ -575,7 +596,7 @@ func (w *world) run() {
 		case "sideprobe":
 			// a side websocket for an unknown session: upgraded only if the
 			// name resolves (Server.serveBackSide looks it up)
-			u := "ws://" + addr + names[st.Name] + "?side=" + url.QueryEscape(`{"ID":987654,"Key":1}`)
+			u := "ws://" + addr + escaped(names[st.Name]) + "?side=" + url.QueryEscape(`{"ID":987654,"Key":1}`)
 			conn, _, err := websocket.DefaultDialer.Dial(u, nil)
 			seen := -1
 			if err == nil {
@@ -1227,7 +1248,7 @@ func runSilent(c *Case) {
 		var kicked []time.Time
 		for j := 0; j < o.Silent && o.Hang == ""; j++ {
 			// a raw websocket client: it reads whatever comes and never writes
-			ws, _, err := websocket.DefaultDialer.Dial("ws://"+addr+names[0], nil)
+			ws, _, err := websocket.DefaultDialer.Dial("ws://"+addr+escaped(names[0]), nil)
 			if err != nil {
 				o.Hang = "dial of a silent peer: " + err.Error()
 				break
@@ -1331,6 +1352,10 @@ func runSilent(c *Case) {
 
 func runHistory(c *Case, seed uint64) {
 	c.Events, c.Notes, c.Bg, c.Looks, c.Before = []Ev{}, []Note{}, []BgObs{}, [][]int{}, [][]int{}
+	names = namePairs[0]
+	if len(c.Names) == 2 {
+		names = c.Names
+	}
 	if c.Stream == "race" {
 		runRace(c, theTap)
 	} else if c.Stream == "silent" {
@@ -1385,10 +1410,11 @@ func main() {
 		*n, *nfree, *nrace, *nsilent, *nfront = len(scripted), 0, 0, 0, 0
 	}
 	total := *n + *nfree + *nrace + *nsilent + *nfront
-	gen := func(i int) Case {
+	gen0 := func(i int) Case {
 		if scripted != nil {
 			x := scripted[i]
-			return Case{I: i, Stream: x.Stream, Steps: x.Steps, Rounds: x.Rounds, Seed: x.Seed, Slow: x.Slow}
+			return Case{I: i, Stream: x.Stream, Steps: x.Steps, Rounds: x.Rounds, Seed: x.Seed, Slow: x.Slow,
+				Names: x.Names}
 		}
 		if i >= *n+*nfree+*nrace+*nsilent {
 			return Case{I: i, Stream: "front", Steps: []Step{}, Rounds: 3, Seed: *seed, Slow: *slow == 1}
@@ -1400,6 +1426,19 @@ func main() {
 			return Case{I: i, Stream: "race", Steps: []Step{}, Rounds: 10, Seed: *seed}
 		}
 		return genHistory(*seed, i, i >= *n)
+	}
+	gen := func(i int) Case {
+		c := gen0(i)
+		if scripted == nil {
+			// the first three forced schedules keep the plain pair; afterwards the
+			// pairs rotate (case variants, unicode case pairs, trailing dot / slash)
+			k := 0
+			if i >= 3 {
+				k = (i - 2) % len(namePairs)
+			}
+			c.Names = namePairs[k]
+		}
+		return c
 	}
 
 	out := hx.NewOut(os.Stdout)
